@@ -3,7 +3,7 @@
    (reports/bbfile.md; they stay in the corpus of props/C15.py).  The same files are harmless for the repaired code. *)
 From Coq Require Import ZArith List Bool Lia.
 Import ListNotations.
-Require Import Verif.gen.Consts_rb Verif.gen.Consts_bbfile Verif.RbModel Verif.BbFileModel Verif.BbFileProofs.
+Require Import Verif.gen.Consts_rb Verif.gen.Consts_bbfile Verif.RbModel Verif.BbFileModel Verif.BbFileProofs Verif.BbFileRoundTrip.
 Local Open Scope Z_scope.
 
 Definition w32 := word_bytes.
@@ -95,3 +95,21 @@ Proof.
   - constructor; [|constructor]. unfold buf_ok. vm_compute. repeat split; intro H; discriminate H.
   - vm_compute. reflexivity.
 Qed.
+
+(* non-vacuity of the round trip: a blackbox ring (overwrite mode, 2 pages) that has wrapped - 100 entries of 137 bytes
+   were logged, the oldest were overwritten - dumped by the writer model and printed: exactly the newest entries *)
+Definition rec_k (k : Z) : brec :=
+  {| b_line := 100 + k; b_tags := k; b_prio := k mod 8; b_fn := [102; 110; 65 + k mod 26]; b_sec := 1700000000 + k;
+     b_nsec := 1000 * k; b_msg := repeat (97 + k mod 26) 99 ++ [0] |}.
+Definition log_k (b : rb) (k : Z) : rb :=
+  match alloc_commit b (zlen (enc (rec_k k)) - zlen (b_msg (rec_k k)) + BBF_LOG_MAX_LEN) (enc (rec_k k)) with
+  | WRet b1 _ => b1 | WFuel => b end.
+Definition ring100 : rb := fold_left log_k (map Z.of_nat (seq 0 100)) (rb_open 5000 false true).
+Definition orc_k (k : Z) : list Z := repeat (97 + k mod 26) 99 ++ [0].
+
+Lemma roundtrip_example :
+  rpt ring100 = 1776 /\ wpt ring100 = 1652 /\
+  (records (print_from_file true true (map orc_k (map Z.of_nat (seq 48 52))) heapA [] 0 (bb_dump ring100)) =
+   map (fun k => ERec (k mod 8) (1700000000 + k) (1000 * k) [102; 110; 65 + k mod 26] (100 + k) k
+                      (repeat (97 + k mod 26) 99)) (map Z.of_nat (seq 48 52))).
+Proof. vm_compute. repeat split; congruence. Qed.
